@@ -548,7 +548,30 @@ func (l *Lexer) isAccountStartRune(r rune) bool {
 }
 
 func (l *Lexer) isCurrencySymbol(r rune) bool {
+	return isCurrencySymbolRune(r)
+}
+
+func isCurrencySymbolRune(r rune) bool {
 	return r == '$' || r == '€' || r == '£' || r == '¥' || r == '₽' || r == '₴'
+}
+
+// IsPlainCommodity reports whether a commodity symbol is read back as itself
+// when written without quotes on either side of a number, glued to it or not:
+// a word of upper-case ASCII letters, or one of the currency signs the lexer
+// knows. Anything else has to stay in quotes.
+func IsPlainCommodity(symbol string) bool {
+	if symbol == "" {
+		return false
+	}
+	if r, size := utf8.DecodeRuneInString(symbol); size == len(symbol) && isCurrencySymbolRune(r) {
+		return true
+	}
+	for i := 0; i < len(symbol); i++ {
+		if symbol[i] < 'A' || symbol[i] > 'Z' {
+			return false
+		}
+	}
+	return true
 }
 
 func (l *Lexer) nextIsCurrencySymbol() bool {
